@@ -605,13 +605,13 @@ package gocql
 //@   props C04 C05 C18
 //@   count_calls Decode
 //@   requires head != nil
-//@   ensures[C18] Decode_calls > 0 ==> old(head.flags)&0x01 != 0
-//@   ensures[C18] result == nil && old(head.flags)&0x01 != 0 ==> Decode_calls == 1
+//@   ensures[C04,C18] Decode_calls > 0 ==> old(head.flags)&0x01 != 0
+//@   ensures[C04,C18] result == nil && old(head.flags)&0x01 != 0 ==> Decode_calls == 1
 //@   assume ErrFrameTooBig != nil
 //@   alloc_bound 256*1024*1024
 //@   ensures result == nil ==> f.header == head && old(head.length) >= 0 && old(head.length) <= 256*1024*1024
-//@   ensures[C18] result == nil && old(head.flags)&0x01 == 0 ==> len(f.buf) == old(head.length)
-//@   ensures[C18] old(head.flags)&0x01 != 0 && old(f.compres) == nil ==> result != nil
+//@   ensures[C04,C18] result == nil && old(head.flags)&0x01 == 0 ==> len(f.buf) == old(head.length)
+//@   ensures[C04,C18] old(head.flags)&0x01 != 0 && old(f.compres) == nil ==> result != nil
 
 //@ func (f *framer) parseReadyFrame
 //@   props C04 C05
